@@ -37,6 +37,15 @@ CHECKS = {
  "C13": ("programs with print calls at every number of live variables 0..21 and every number of entry arguments, on the x86-64 and AArch64 emulators with an explicit calling-convention model: alignment at calls (and SP accesses on AArch64), callee-saved registers/stack pointer restored, result register, and poisoning of everything a callee may clobber",
          "trusts the emulators' model of the System V and AAPCS64 conventions (DESIGN 3.4)",
          "property-based testing against an executable calling-convention model (poison tracking)"),
+ "C11": ("exhaustive enumeration of all maps new[m] -> old[n] (m, n <= 3 quick, <= 5 thorough), all kind assignments, all window offsets across each backend's register/spill boundary, with and without object padding, plus seeded random larger substitutions with aliased and multi-block objects; each configuration is executed on the emulator with the heap auditor and compared with the AxCut machine",
+         "trusts emulators, heap auditor and AxCut machine; the substitution is observed through a generated prelude/epilogue, not a hand-prepared machine state",
+         "exhaustive enumeration of a finite configuration space + property-based sampling beyond it, differential oracle with heap invariant"),
+ "C12": ("generated accepted programs are pushed through every stage under catch_unwind; independent type/scope checkers for Core (unfocused, uniquified, focused), AxCut (non-linear) and the ordered linear discipline; all three code generators",
+         "trusts the independent checkers' reading of the typing rules listed in the property",
+         "property-based testing with independent type checkers as oracles at every stage"),
+ "C15": ("accept side: programs well-typed by construction must be accepted; reject side: 16 classes of single certainly-ill-typed edits applied at every applicable site must be rejected with an error (not accepted, no panic)",
+         "trusts the generator's typing discipline (accept) and that each mutation class is ill-typed under any reading (reject)",
+         "property-based testing: constructive generation + mutation-based negative testing"),
 }
 
 DESIGN_REF = {k: f"DESIGN.md section 4/{k}" for k in ["C%02d" % i for i in range(1, 21)]}
